@@ -257,6 +257,8 @@ double gd_framenum_subset64(DIRFILE* D, const char* field_code, double value,
     _GD_SetError(D, GD_E_DOMAIN, GD_E_DOMAIN_COMPLEX, NULL, 0, NULL);
   else if (entry->field_type & GD_SCALAR_ENTRY_BIT)
     _GD_SetError(D, GD_E_DIMENSION, GD_E_DIM_CALLER, NULL, 0, field_code);
+  else if (entry->field_type == GD_SINDIR_ENTRY) /* no numbers to search */
+    _GD_SetError(D, GD_E_BAD_FIELD_TYPE, GD_E_FIELD_BAD, NULL, 0, field_code);
 
   if (D->error) {
     dreturn("%.15g", frame);
